@@ -1896,6 +1896,18 @@ def unit_sizefmt(inj, scratch):
     # ---- tail: everything after the statement `let format_options = ..;` (rendering call and unit text replacements)
     semi = s.mask.index(';', m2.start())
     tail_text = dedent(s.text[semi + 1:it['close']].strip('\n'))
+    # module-level constants of util/mod.rs that the two fragments name (e.g. a unit table) travel with them, verbatim
+    consts, const_names = [], []
+    for name in sorted(set(re.findall(r'\b[A-Z][A-Z0-9_]{2,}\b', t + tail_text)) - {'BINARY', 'DECIMAL', 'WINDOWS', 'MAX', 'MIN'}):
+        ms = s.find_all(r'^(?:pub(?:\([a-z]+\))?\s+)?const\s+' + name + r'\s*:', flags=re.M)
+        if len(ms) == 1:
+            k, depth = ms[0].end(), 0
+            while k < len(s.mask) and not (s.mask[k] == ';' and depth == 0):
+                depth += s.mask[k] in '([{'
+                depth -= s.mask[k] in ')]}'
+                k += 1
+            consts.append(s.text[ms[0].start():k + 1]); const_names.append(name)
+    const_text = '\n'.join(consts)
     text = f'''pub mod sizefmt {{
 pub mod humansize {{
     #[derive(Clone, Copy, PartialEq, Debug)] pub enum FixedAt {{ Base, Kilo, Mega, Giga, Tera, Peta, Exa }}
@@ -1912,6 +1924,8 @@ pub mod humansize {{
 pub fn frag_size_text(size: u64, format_options: humansize::Opts, short_units: bool) -> String {{
     {tail_text}
 }}
+// ---- verbatim: module-level constants named by the fragments ----
+{const_text}
 pub fn error_exit(_a: &str, _b: &str) -> ! {{ kani::assume(false); loop {{}} }}
 // ---- verbatim: format_filesize from `let fixed_at;` up to (not including) `let format_options = ..` ----
 pub fn frag_size_options(mut modifier: String, mut zeroes: i32) -> (Option<humansize::FixedAt>, humansize::Base, i32) {{
@@ -1925,7 +1939,7 @@ pub fn frag_size_options(mut modifier: String, mut zeroes: i32) -> (Option<human
     r, d = frag_record('frag_size_options', 'src/util/mod.rs', 'fn format_filesize / statements from `let fixed_at;` up to `let format_options = ..` (verbatim); the use of (format, fixed_at, zeroes, space) in format_options is checked by shape',
                        t, t, ['humansize::{FixedAt, BINARY, DECIMAL, WINDOWS} -> shim enums'], 'the specifier regex (precision / space / unit capture), humansize rendering, the kB/short-unit text replacements')
     r2, d2 = frag_record('frag_size_text', 'src/util/mod.rs', 'fn format_filesize / everything after the statement `let format_options = ..;` (verbatim)', tail_text, tail_text,
-                         ['humansize::format_size -> stand-in answering with a harness-stated rendering'], 'humansize rendering itself (T3)')
+                         ['humansize::format_size -> stand-in answering with a harness-stated rendering'] + ([f'module-level constants carried along verbatim: {", ".join(const_names)}'] if const_names else []), 'humansize rendering itself (T3)')
     return dict(functions=[r, r2], dropped=[d, d2], assumptions=['humansize: BINARY = 1024-based with KiB.. units, DECIMAL = 1000-based with kB.., WINDOWS = 1024-based with kB.. units; FixedAt fixes the unit'])
 
 
